@@ -134,6 +134,11 @@ func (d c12dressing) rootOf(i int) string {
 
 // c12client builds a client the way a real one is configured (keep_services/accessible JSON).
 func c12client(fake *c12fake, d c12dressing, uuids []string, index map[string]int) (*KeepClient, map[string]string) {
+	return c12clientRO(fake, d, uuids, index, nil)
+}
+
+// c12clientRO: same, the services in ro are listed with "read_only":true.
+func c12clientRO(fake *c12fake, d c12dressing, uuids []string, index map[string]int, ro map[string]bool) (*KeepClient, map[string]string) {
 	kc := &KeepClient{
 		Arvados:       &arvadosclient.ArvadosClient{ApiToken: "c12token"},
 		Want_replicas: 1,
@@ -146,8 +151,8 @@ func c12client(fake *c12fake, d c12dressing, uuids []string, index map[string]in
 	for k := len(uuids) - 1; k >= 0; k-- {
 		u := uuids[k]
 		s, h, p := d.root(index[u])
-		items = append(items, fmt.Sprintf(`{"uuid":%q,"service_host":%q,"service_port":%d,"service_ssl_flag":%v,"service_type":%q,"read_only":false}`,
-			u, h, p, s == "https", d.svcType))
+		items = append(items, fmt.Sprintf(`{"uuid":%q,"service_host":%q,"service_port":%d,"service_ssl_flag":%v,"service_type":%q,"read_only":%v}`,
+			u, h, p, s == "https", d.svcType, ro[u]))
 		rootToUUID[d.rootOf(index[u])] = u
 	}
 	if err := kc.LoadKeepServicesFromJSON(`{"items":[` + strings.Join(items, ",") + `]}`); err != nil {
@@ -321,6 +326,82 @@ func (c *c12ctx) doSets(block int) {
 				r.Outcome("relative order stable under removal/addition of one service")
 			} else {
 				r.Outcome("relative order changed by removal/addition")
+			}
+		}
+	}
+}
+
+// doReadOnly: service sets in which some services are read-only.  Readers probe ALL services in
+// rendezvous order; writers probe exactly the writable ones, in the same relative order ("a block
+// written with enough replicas is found at the first positions a reader tries" needs the write order
+// to be the read order restricted to the services that can be written).  Every subset of the first
+// five pool UUIDs x every assignment of the read-only flag with at least one read-only service.
+func (c *c12ctx) doReadOnly(block int) {
+	r := c.r
+	n := 5
+	if len(c.pool) < n {
+		n = len(c.pool)
+	}
+	hash := c12ref.BlockHash(block)
+	content := c12ref.BlockContent(block)
+	for mask := 1; mask < 1<<uint(n); mask++ {
+		var uuids []string
+		for i := 0; i < n; i++ {
+			if mask&(1<<uint(i)) != 0 {
+				uuids = append(uuids, c.pool[i])
+			}
+		}
+		for romask := 1; romask < 1<<uint(len(uuids)); romask++ {
+			ro := map[string]bool{}
+			var writable []string
+			for i, u := range uuids {
+				if romask&(1<<uint(i)) != 0 {
+					ro[u] = true
+				} else {
+					writable = append(writable, u)
+				}
+			}
+			d := c12dressings[(mask+romask)%len(c12dressings)]
+			r.Eval(1)
+			kc, r2u := c12clientRO(c.fake, d, uuids, c.index, ro)
+			c.fake.reset()
+			rdr, _, _, err := kc.Get(d.locator(hash, len(content)))
+			if err == nil {
+				rdr.Close()
+			}
+			read := c12toUUIDs(c.fake.roots("GET"), r2u)
+			c.fake.reset()
+			kc.PutB(content)
+			write := c12toUUIDs(c.fake.roots("PUT"), r2u)
+			where := fmt.Sprintf("dressing %s, read-only %v", d.name, ro)
+			c.checkOrder("read", block, uuids, read, where)
+			bad := false
+			for _, u := range write {
+				if ro[u] {
+					bad = true
+				}
+			}
+			if bad {
+				c.violation("write-probes-a-read-only-service", block, "readonly",
+					fmt.Sprintf("%s: services %v, write probed %v", where, uuids, write))
+			}
+			var want []string
+			for _, u := range read {
+				if !ro[u] {
+					want = append(want, u)
+				}
+			}
+			if !bad && !c12ref.Equal(write, want) {
+				c.violation("write-order-is-not-the-read-order-restricted-to-writable-services", block, "readonly",
+					fmt.Sprintf("%s: services %v read order %v write order %v (writable %v)", where, uuids, read, write, writable))
+			}
+			if !bad && c12ref.Equal(write, want) {
+				r.Outcome(fmt.Sprintf("write order = read order minus %d read-only service(s)", len(ro)))
+			} else {
+				r.Outcome("write order wrong with read-only services")
+			}
+			if len(writable) >= 2 {
+				r.Distinct(fmt.Sprintf("ro/%d/%d/%d", block, mask, romask))
 			}
 		}
 	}
@@ -644,6 +725,9 @@ func TestVerifC12(t *testing.T) {
 		}
 		if !replay || rp.Kind == "found" {
 			c.doFound(block)
+		}
+		if !replay || rp.Kind == "readonly" {
+			c.doReadOnly(block)
 		}
 		if (!replay && block < nHint) || (replay && rp.Kind == "hints") {
 			c.doHints(block)
